@@ -29,7 +29,12 @@ use crate::{
     world::{content, ent_of, hexbytes, world, Ent},
 };
 
-pub struct Swarm;
+pub struct Swarm {
+    /// clock skew far beyond the ten-minute future bound: entries of a fast node are refused by
+    /// the others until their clocks catch up, so only the safety oracles apply (nothing
+    /// invented, every node join-closed, closing sessions terminate)
+    pub big_skew: bool,
+}
 
 const BASE: u64 = 1_700_000_000_000_000;
 
@@ -67,7 +72,7 @@ pub struct SwarmPlan {
 impl Scenario for Swarm {
     type Plan = SwarmPlan;
     fn name(&self) -> String {
-        "swarm".into()
+        if self.big_skew { "swarm-bigskew".into() } else { "swarm".into() }
     }
 
     fn gen(&self, rng: &mut Rng, tier: Tier) -> SwarmPlan {
@@ -101,14 +106,14 @@ impl Scenario for Swarm {
         SwarmPlan {
             seed: rng.next_u64(),
             nodes,
-            skew: (0..nodes).map(|_| rng.range(0, 480) as i32 - 240).collect(),
+            skew: (0..nodes).map(|_| if self.big_skew { rng.range(0, 7200) as i32 - 3600 } else { rng.range(0, 480) as i32 - 240 }).collect(),
             steps,
             tree: (0..16).map(|_| rng.below(256) as u8).collect(),
         }
     }
 
     fn exec(&self, plan: &SwarmPlan, cx: &mut Cx) -> Res {
-        block_on_sim(plan.seed, run(plan, cx))
+        block_on_sim(plan.seed, run(plan, cx, self.big_skew))
     }
 
     fn shrink(&self, plan: &SwarmPlan) -> Vec<SwarmPlan> {
@@ -290,7 +295,7 @@ async fn full_session(nodes: &[SimNode], a: u8, b: u8, cx: &mut Cx) -> Res<Resul
     }
 }
 
-async fn run(plan: &SwarmPlan, cx: &mut Cx) -> Res {
+async fn run(plan: &SwarmPlan, cx: &mut Cx, big_skew: bool) -> Res {
     let w = world();
     let ns = w.doc_id(0);
     let n = plan.nodes as usize;
@@ -504,6 +509,9 @@ async fn run(plan: &SwarmPlan, cx: &mut Cx) -> Res {
         nodes[i] = fresh;
     }
     let expected = RefDoc::join(held_union.iter());
+    if big_skew {
+        cx.fault("clock_skew_beyond_future_bound");
+    }
 
     // closing phase: complete sessions along a random spanning tree until a round is silent
     let mut edges: Vec<(u8, u8)> = Vec::new();
@@ -528,7 +536,7 @@ async fn run(plan: &SwarmPlan, cx: &mut Cx) -> Res {
             break;
         }
     }
-    if !silent {
+    if !silent && !big_skew {
         return Err(Violation::new("no-silent-round/budget", format!("{budget} rounds of complete sessions along a spanning tree of {n} nodes still transfer entries")));
     }
     // final comparison
@@ -538,6 +546,20 @@ async fn run(plan: &SwarmPlan, cx: &mut Cx) -> Res {
         let mut store = node.stop().await?;
         let d = dump(&mut store, 0).map_err(harness)?;
         finals.push(d.doc);
+    }
+    if big_skew {
+        // safety only: nothing invented, every node join-closed
+        for (i, f) in finals.iter().enumerate() {
+            if &RefDoc::join(f.entries()) != f {
+                return Err(Violation::new("not-join/node-state", format!("node {i} holds a superseded entry: {}", f.short())));
+            }
+            for e in f.entries() {
+                if !written.contains(&postcard::to_stdvec(&e.signed()).unwrap()) {
+                    return Err(Violation::new("invented/entry", format!("node {i} holds an entry that no node wrote: {}", e.short())));
+                }
+            }
+        }
+        return Ok(());
     }
     for i in 1..n {
         if finals[i] != finals[0] {
